@@ -188,6 +188,48 @@ func TestC20(t *testing.T) {
 			}
 		})
 	}
+	// enumerated: the URI grammar's cross product (scheme x userinfo x host x port x path) as the one entry of both
+	// subjectAltName and issuerAltName - the nine SAN / IAN URI rule copies must agree on every shape of authority
+	if fb, _ := structBases(); len(fb["san-ian"]) > 0 {
+		o := gen.LoadCorpus().Certs[fb["san-ian"][0]]
+		k := 0
+		for _, scheme := range []string{"https", "ldap", "X-y.z"} {
+			for _, user := range []string{"", "user@", "u:p@", "@"} {
+				for _, host := range []string{"example.com", "www.example.co.uk", "localhost", "intranet", "a_b.example.com", "1.2.3.4", "10.0.0.1", "[::1]", "[2001:db8::1]", "", "*.example.com", "*", "example.com.", "EXAMPLE.COM",
+					"xn--bcher-kva.example", "-a.com", "exa mple.com", "host.invalidtld", "a..b", "999.1.1.1"} {
+					for _, port := range []string{"", ":80", ":", ":x", ":99999"} {
+						for _, path := range []string{"", "/", "/a?b=c#d", "?q"} {
+							k++
+							if !stats.Mine(k) {
+								continue
+							}
+							u := scheme + "://" + user + host + port + path
+							v, err := gen.ViewCert(o.DER)
+							if err != nil {
+								continue
+							}
+							v.SetSAN(false, gen.GNURI([]byte(u)))
+							for v.Ext(gen.OIDExtIAN...) != nil {
+								v.RemoveExt(gen.OIDExtIAN...)
+							}
+							v.SetIAN(gen.GNURI([]byte(u)))
+							if pc, ok := gen.ParseCert(o.DER); ok {
+								gen.Redate(v, pc, latestEffective, gen.UTCZ)
+							}
+							c := c20Case{DER: v.DER(), Base: o.Name, Fam: "uri-product", Desc: []string{u}}
+							rec.Eval()
+							rec.Class("uri_product_enumerated")
+							if sig, msg := judgeC20(rec, c); msg != "" {
+								if rec.Report("c20", sig, msg, c) {
+									t.Fatalf("c20 URI %q in SAN and IAN: %s: %s", u, sig, msg)
+								}
+							}
+						}
+					}
+				}
+			}
+		}
+	}
 	// pair sweep (enumerated): for every pair, corpus certificates on which both members run x every
 	// (leaf x type-aware edit) mutant - the edit alone, the edit with the subjectAltName value then copied
 	// into issuerAltName, and the edit with the subject then copied into the issuer - linted with all
